@@ -49,6 +49,7 @@ PROBES = [
     "fog-complete",
     "retained-fog-rechecked",
     "restart-with-format-literal-in-prefix",
+    "fog-wider-than-256",
 ]
 FAULTS = ["resp-dup", "resp-early", "resp-lost", "resp-malformed", "fog-restart", "msg-reorder"]
 COMPONENTS = {
@@ -129,6 +130,8 @@ class World:
             self.viol("is-complete", f"is_complete is {rep.fog.is_complete} with {len(rep.model)} unexplored prefixes")
         if not rep.model:
             self.st.probe("fog-complete")
+        if len(rep.model) > 256:
+            self.st.probe("fog-wider-than-256")
         self.st.state(hashlib.sha256(repr(m).encode()).digest())
 
     def apply(self, rep, fn, valid, why, what):
@@ -363,7 +366,32 @@ def gen_shape(rng, prefix, depth, maxdepth):
     return segs
 
 
+def generate_wide(rng):
+    """A session whose fog holds several hundred unexplored prefixes at once: the root
+    and every second-level prefix are full branches, a few third-level ones too."""
+    cmds = []
+    full = [[x] for x in range(16)]
+    for r in (0, 1):
+        order = list(range(16))
+        rng.shuffle(order)
+        cmds.append({"op": "deliver", "r": r, "prefix": [], "segs": full, "why": "deliver"})
+        for a in order:
+            cmds.append({"op": "deliver", "r": r, "prefix": [a], "segs": full, "why": "deliver"})
+        for _ in range(rng.choice([1, 2, 3])):
+            cmds.append({"op": "deliver", "r": r, "prefix": [rng.randrange(16), rng.randrange(16)], "segs": full, "why": "deliver"})
+        for _ in range(rng.choice([4, 8, 12])):
+            kind = rng.choice(["unknown", "right"])
+            qk = rng.choice([[15, 15, 15], [15, 15], [15, 15, 0], [0], [], [15, 15, 15, 15], [rng.randrange(16), rng.randrange(16), rng.randrange(16)]])
+            cmds.append({"op": "query", "r": r, "kind": kind, "qk": qk})
+        if rng.random() < 0.5:
+            cmds.append({"op": "restart", "r": r})
+    cmds.append({"op": "converge"})
+    return {"prop": ID, "cfg": {}, "cmds": cmds}
+
+
 def generate(rng):
+    if rng.random() < 0.015:
+        return generate_wide(rng)
     maxdepth = rng.choice([1, 2, 3, 4, 6])
     budget = rng.choice(deep([5, 10, 20, 40], [10, 20, 40, 80, 160]))
     responses = []
